@@ -317,30 +317,15 @@ func IntersectionBy[T comparable](fn func(T) T, params ...[]T) []T {
 		}
 		var j int
 		for j = 1; j < len(params); j++ {
-			var inl2_v0 bool
-		inl2done:
-			switch {
-			default:
-				var slice []T = params[j]
-				_ = slice
-				var item T = item
-				_ = item
-				var fn func(T) T = fn
-				_ = fn
-				for _, v := range slice {
+			has := func() bool {
+				for _, v := range params[j] {
 					if fn(v) == fn(item) {
-						{
-							inl2_v0 = true
-							break inl2done
-						}
+						return true
 					}
 				}
-				{
-					inl2_v0 = false
-					break inl2done
-				}
+				return false
 			}
-			if !inl2_v0 {
+			if !has() {
 				break
 			}
 		}
@@ -476,7 +461,7 @@ func DropRightWhile[T any](slice []T, fn func(T) bool) []T {
 	return result
 }
 
-// MapByIndex
+// groupByIndex groups the items of origSlice by the key found at the same index in mapSlice.
 func mapByIndex[T1 comparable, T2 any](origSlice []T2, mapSlice []T1) map[T1][]T2 {
 	result := make(map[T1][]T2)
 
